@@ -97,6 +97,17 @@ def ann_value(p):
     return p.annotation
 
 
+def check_raw_vs_upgraded(r, stats, case, desc):
+    """A parameter without annotation carries no upgraded one either (evaluated() would bring it back)."""
+    for p in r.parameters.values():
+        up = getattr(p, 'upgraded_annotation', None)
+        if p.annotation is p.empty and up is not None and up.source_value() is not p.empty:
+            stats.fail('C10/annotation/dropped-but-upgraded-kept', case,
+                       '%s -> %s: parameter %s has no annotation but its upgraded annotation still denotes %r (evaluated() gives %s)' % (
+                           desc, r, p.name, up.source_value(), r.evaluated()))
+            return
+
+
 def pinfo(p):
     return (p.name, int(p.kind), NODEF if p.default is p.empty else p.default, ann_value(p))
 
@@ -143,6 +154,7 @@ def check_merge(specs, stats, enum=False):
         stats.cls('merge/with-postponed-carrier')
     case = {'op': 'merge', 'specs': [list(map(list, s)) for s in specs]}
     desc = 'merge(%s)' % ', '.join('%s(%s)' % ('' if c == 'func' else c + ' ', universe.spec_text(s)) for s, c in zip(specs, cars))
+    check_raw_vs_upgraded(r, stats, case, desc)
     nontriv = False
     for p in r.parameters.values():
         name, kind, default, ann = pinfo(p)
@@ -238,6 +250,7 @@ def check_embed(so, si, args, stats, op='embed'):
         stats.cls('%s/raised' % op)
         return
     stats.cls(op)
+    check_raw_vs_upgraded(r, stats, {'op': op, 'specs': [list(map(list, so)), list(map(list, si))], 'args': args}, desc)
     partial = op == 'forwards' and args['flags'].get('partial')
     onames = {p.name: pinfo(p) for p in outer.parameters.values()}
     inames = {p.name: pinfo(p) for p in inner.parameters.values()}
